@@ -239,6 +239,27 @@ def eval_clauses(eng, st, fid, clauses, extra=None):
 from .unitdef import norm_clauses  # noqa: E402
 
 
+def register_cuts(eng, body, cuts):
+    """block contracts: statements of ``body`` (source order) whose text is c["at"] (a text or a list of
+    alternatives, the first that occurs is used); "occurrence" picks one of several equal statements"""
+    if getattr(eng, "cuts", None) is None:
+        eng.cuts, eng.cuts_hit = {}, set()
+    stmts = sorted((n for b_ in body for n in ast.walk(b_) if isinstance(n, ast.stmt)), key=lambda n: (n.lineno, n.col_offset))
+    texts = {}
+    for n in stmts:
+        try:
+            texts.setdefault(ast.unparse(n), []).append(n)
+        except Exception:
+            pass
+    for clabel, c in cuts.items():
+        ats = c["at"] if isinstance(c["at"], (list, tuple)) else [c["at"]]
+        nodes = next((texts[a] for a in ats if a in texts), [])
+        if c.get("occurrence") is not None:
+            nodes = nodes[c["occurrence"] : c["occurrence"] + 1]
+        for n in nodes:
+            eng.cuts[id(n)] = (clabel, c["assert"], list(c.get("havoc", [])))
+
+
 def cut_loop(eng, node, st, fid, spec, kind, iterv=None):
     lab = spec.get("label") or f"loop{eng.loop_ord.get(id(node))}"
     inv = norm_clauses(spec.get("inv"))
@@ -417,7 +438,20 @@ def cut_loop(eng, node, st, fid, spec, kind, iterv=None):
             # ghost snapshots of the loop variables after statements identified by their text
             eng.probes = {txt: (label, sorted(body_assigned)) for label, txt in spec["probes"].items()}
             eng.probes_hit = set()
-        body_outs = eng.exec_block(node.body, s1, fid)
+        saved_cuts = (dict(getattr(eng, "cuts", None) or {}), set(getattr(eng, "cuts_hit", None) or ()))
+        if spec.get("cuts"):
+            register_cuts(eng, node.body, spec["cuts"])
+        try:
+            body_outs = eng.exec_block(node.body, s1, fid)
+        finally:
+            if spec.get("cuts"):
+                missing_cuts = set(spec["cuts"]) - eng.cuts_hit
+                eng.cuts, eng.cuts_hit = saved_cuts[0], saved_cuts[1] | (eng.cuts_hit - set(spec["cuts"]))
+        if spec.get("cuts") and missing_cuts:
+            # a block contract is a proof hint tied to the shape of the body: without it the
+            # remaining obligations are still generated (and may stay undecided)
+            eng.notes = getattr(eng, "notes", [])
+            eng.notes.append(f"{eng.unit}: loop {lab}: cut statement(s) {sorted(missing_cuts)} not found in the loop body (hint skipped)")
         if spec.get("probes"):
             missing = set(spec["probes"]) - eng.probes_hit
             eng.probes, eng.probes_hit = saved_probes
